@@ -228,6 +228,17 @@ def part_b(ctx):
             vcf2zarr.convert([pth], a_path, worker_processes=0, local_alleles=True)
             vcf2zarr.convert([pth], b_path, worker_processes=0, local_alleles=False)
         except Exception as e:  # noqa: BLE001
+            # a file that cannot be converted WITHOUT local alleles either, with the same error, says nothing about C17
+            # (finding F18 under C01: a wide PL array whose default chunk exceeds the codec's 2 GiB limit)
+            shutil.rmtree(b_path, ignore_errors=True)
+            try:
+                vcf2zarr.convert([pth], b_path, worker_processes=0, local_alleles=False)
+                same = False
+            except Exception as e2:  # noqa: BLE001
+                same = type(e2) is type(e) and str(e2) == str(e)
+            if same:
+                ctx.note(f"conversion refused with and without local alleles alike ({type(e).__name__}: {str(e)[:60]}): not a C17 matter")
+                continue
             ctx.fail(doc, dict(error=f"{type(e).__name__}: {e}"[:300]), "conversion with local alleles raised")
             continue
         a, b = zarr.open(a_path, mode="r"), zarr.open(b_path, mode="r")
